@@ -1,4 +1,5 @@
 import MuduoVerif.Proofs.RaceExamples
+import MuduoVerif.Proofs.OwnerSkelTie
 /-!
 # C08 — the thread-safe API is free of data races; the loop-confined API fails fast off-thread
 
@@ -227,5 +228,25 @@ example : ∃ r ∈ rows, r.cls = "EventLoop" ∧ r.fn = "queueSize" ∧ r.field
   · rw [hkind]; exact ⟨7, rfl⟩
   · intro m _
     exact ⟨0, by omega, rfl, by intro k h1 h2; omega⟩
+
+/-! ### the set-up setters of a connection and the hand-over -/
+
+/-- **the library's own set-up calls precede the hand-over**: the policy exempts the rows of `TcpConnection`'s set-up
+setters (`setConnectionCallback`, `setMessageCallback`, `setWriteCompleteCallback`, `setCloseCallback` write the
+`confined` callback members from whatever thread calls them) on the ground that they run "before the object is shared".
+For the one caller inside the library that shares the object with ANOTHER thread this is a fact about statement order,
+read off /repo's current `TcpServer::newConnection` (`Generated/OwnerSkel.lean`, re-extracted on every run,
+`Proofs/OwnerSkelTie.lean`): the acceptor thread hands the connection to its io loop exactly once
+(`ioLoop->runInLoop(connectEstablished)`), all four setters are called before that statement and nothing touches the
+connection after it - from there on the io thread may be reading and calling the members.  (`TcpClient::newConnection`
+runs `connectEstablished` inline on the same loop thread: `ClientSkel`, C12.) -/
+theorem setup_before_handover :
+    (match policyOfClass "TcpConnection" with
+      | some cp => ["setConnectionCallback", "setMessageCallback", "setWriteCompleteCallback", "setCloseCallback"].all cp.setup.contains
+      | none => false) = true ∧
+    OwnerSkel.HandoverLast "conn" "TcpConnection::connectEstablished(conn)"
+      ["setConnectionCallback", "setMessageCallback", "setWriteCompleteCallback", "setCloseCallback"]
+      Gen.OwnerSkel.newConnection :=
+  ⟨by decide, OwnerSkel.handover_is_last⟩
 
 end MuduoVerif.C08
